@@ -27,13 +27,13 @@ type WebRTCPeer struct {
 
 	mu          sync.Mutex // protects the following:
 	lastReceive time.Time
+	bytesLogger bytesLogger
 
 	open   chan struct{} // Channel to notify when datachannel opens
 	closed chan struct{}
 
 	once sync.Once // Synchronization for PeerConnection destruction
 
-	bytesLogger  bytesLogger
 	eventsLogger event.SnowflakeEventReceiver
 }
 
@@ -92,8 +92,16 @@ func (c *WebRTCPeer) Write(b []byte) (int, error) {
 	if err != nil {
 		return 0, err
 	}
-	c.bytesLogger.addOutbound(len(b))
+	c.getBytesLogger().addOutbound(len(b))
 	return len(b), nil
+}
+
+// getBytesLogger returns the current traffic logger, which Peers.Pop replaces
+// while the DataChannel callbacks may already be running.
+func (c *WebRTCPeer) getBytesLogger() bytesLogger {
+	c.mu.Lock()
+	defer c.mu.Unlock()
+	return c.bytesLogger
 }
 
 // Closed returns a boolean indicated whether the peer is closed.
@@ -227,7 +235,7 @@ func (c *WebRTCPeer) preparePeerConnection(config *webrtc.Configuration) error {
 			log.Println("0 length message---")
 		}
 		n, err := c.writePipe.Write(msg.Data)
-		c.bytesLogger.addInbound(n)
+		c.getBytesLogger().addInbound(n)
 		if err != nil {
 			// TODO: Maybe shouldn't actually close.
 			log.Println("Error writing to SOCKS pipe")
